@@ -2,6 +2,8 @@ CONSTANTS
   HUGE = 1000000
   Roots <- RootsThorough
   MaxObjs = 6
+  MaxObjsWide = 3
+  Deep = TRUE
 SPECIFICATION Spec
 VIEW View
 INVARIANTS DesignOK EmitCase
